@@ -54,6 +54,7 @@ func VH_C07_CommitAdoptsNextSet() {
 	verifrt.Assert(vhSameSet(e.s.NextRound.ValidatorSet, v1), "C07:next-round-set-is-committed-headers-next-set")
 	verifrt.Assert(vhSameSet(e.s.Committing.ValidatorSet, v0), "C07:committing-view-keeps-its-set")
 	verifrt.Assert(e.s.Voting.VoteSummary.AvailablePower == v1.Validators[0].Power+v1.Validators[1].Power, "C07:available-power-is-the-new-sets")
+	verifrt.Assert(e.s.NextRound.VoteSummary.AvailablePower == v1.Validators[0].Power+v1.Validators[1].Power, "C07:next-round-available-power-is-the-new-sets")
 
 	// height 2 is voted by v1: its validators sign, and the header prescribes v2
 	e2 := *e
@@ -68,6 +69,9 @@ func VH_C07_CommitAdoptsNextSet() {
 	verifrt.Assert(vhSameSet(e.s.Voting.ValidatorSet, v2), "C07:voting-set-is-committed-headers-next-set")
 	verifrt.Assert(vhSameSet(e.s.NextRound.ValidatorSet, v2), "C07:next-round-set-is-committed-headers-next-set")
 	verifrt.Assert(vhSameSet(e.s.Committing.ValidatorSet, v1), "C07:committing-view-keeps-its-set")
+	p2sum := v2.Validators[0].Power + v2.Validators[1].Power
+	verifrt.Assert(e.s.Voting.VoteSummary.AvailablePower == p2sum, "C07:available-power-is-the-new-sets")
+	verifrt.Assert(e.s.NextRound.VoteSummary.AvailablePower == p2sum, "C07:next-round-available-power-is-the-new-sets")
 
 	// after a nil round the sets stay
 	e3 := *e
@@ -78,4 +82,5 @@ func VH_C07_CommitAdoptsNextSet() {
 	verifrt.Reach("round-advanced")
 	verifrt.Assert(vhSameSet(e.s.Voting.ValidatorSet, v2), "C07:set-survives-round-advance")
 	verifrt.Assert(vhSameSet(e.s.NextRound.ValidatorSet, v2), "C07:set-survives-round-advance")
+	verifrt.Assert(e.s.Voting.VoteSummary.AvailablePower == p2sum && e.s.NextRound.VoteSummary.AvailablePower == p2sum, "C07:available-power-survives-round-advance")
 }
